@@ -73,6 +73,8 @@ def ctors : List String := ["New", "NewCommon", "NewSubscriptions", "TestMockClo
 
 /-- accesses outside the guard that the pinned code makes, each with its reason. -/
 def exceptions : List (String × String × Bool) := [
+  -- SetSchema hands the clock map itself (the reference, assigned once in New) to the subscriptions; no entry is read
+  ("Machine.clock", "Machine.SetSchema", false),
   -- resolver code: called through the RelationsResolver interface from inside a transition (queue goroutine), or from New/SetSchema
   ("Machine.activeStates", "DefaultRelationsResolver.NewAutoMutation", false),
   -- documented: not safe on a machine that already produces transitions
